@@ -12,10 +12,42 @@ def sh(cmd, cwd):
     p = subprocess.run(cmd, shell=True, cwd=cwd, env=ENV, stdout=subprocess.PIPE, stderr=subprocess.STDOUT, text=True, timeout=1200)
     return p.returncode, p.stdout
 
+def recheck(name, checks):
+    """tools/seed.py recheck <seeded dir name> [check ids...]: re-run checks against /repo with the stored patch applied"""
+    dst = "/verif/seeded/" + name
+    meta = json.load(open(dst + "/meta.json"))
+    checks = checks or [meta["property"]]
+    rc, out = sh("git status --porcelain", "/repo")
+    if out.strip():
+        print("REFUSING: /repo is not clean"); return 1
+    applied = None
+    for c in (dst + "/patch.rebased.diff", dst + "/patch.diff"):
+        if os.path.exists(c):
+            rc, out = sh("git -C /repo apply %s" % c, "/repo")
+            if rc == 0:
+                applied = os.path.basename(c); break
+    if not applied:
+        print(name, "DOES NOT APPLY"); return 1
+    try:
+        for c in checks:
+            t = time.time()
+            rc, out = sh("./check %s --tier quick" % c, "/verif")
+            v = [l for l in out.split("\n") if l.startswith("VIOLATION")]
+            meta.setdefault("checks", {})[c] = {"exit": rc, "line": v[0] if v else "", "wall_s": round(time.time() - t, 1)}
+            print(name, c, rc, v[:1])
+    finally:
+        sh("git reset -q --hard HEAD; git clean -fdq", "/repo")
+    json.dump(meta, open(dst + "/meta.json", "w"), indent=1)
+    return 0
+
+
 def main():
+    if sys.argv[1] == "recheck":
+        return recheck(sys.argv[2], sys.argv[3:])
     mode, pid, m = sys.argv[1], sys.argv[2], sys.argv[3]
     checks = sys.argv[4:] or [pid]
-    wt, src = "/tmp/seed/" + pid, "/tmp/seed/%s-out/%s" % (pid, m)
+    root = os.environ.get("SEED_ROOT", "/tmp/seed")
+    wt, src = root + "/" + pid, root + "/%s-out/%s" % (pid, m)
     demo_txt = open(src + "/demo.txt").read()
     demos = [f for f in os.listdir(src) if f.endswith(".go")]
     placed = []
@@ -24,7 +56,7 @@ def main():
         for d in demos:
             mm = re.search(r"([\w/.-]*/)" + re.escape(d), demo_txt)
             rel = (mm.group(1) if mm else "") + d
-            rel = re.sub(r"^(/tmp/seed/%s/|<repo root>/|\./)" % pid, "", rel).lstrip("/")
+            rel = re.sub(r"^(%s/%s/|<repo root>/|\./)" % (re.escape(root), pid), "", rel).lstrip("/")
             os.makedirs(os.path.dirname(os.path.join(wt, rel)) or wt, exist_ok=True)
             shutil.copy(os.path.join(src, d), os.path.join(wt, rel))
             if rel not in placed: placed.append(rel)
@@ -43,13 +75,13 @@ def main():
     ok = all(res[k] for k in ("demo_clean_passes", "patch_applies", "suite_passes_with_patch", "demo_fails_with_patch"))
     if not ok:
         print("NOT CONFIRMED", out[-800:]); return 1
-    dst = "/verif/seeded/%s-%s" % (pid, m)
+    dst = "/verif/seeded/%s-%s%s" % (pid, os.environ.get("SEED_TAG", ""), m)
     os.makedirs(dst, exist_ok=True)
     shutil.copy(src + "/patch.diff", dst + "/patch.diff")
     for d in demos: shutil.copy(os.path.join(src, d), dst)
     shutil.copy(src + "/demo.txt", dst + "/demo.txt")
     meta = {"property": pid, "breaks": open(src + "/meta.txt").read().strip(), "demo_files": placed, "demo_cmd": cmd,
-            "confirmed": res, "confirmed_in": "scratch worktree of /repo at the pinned commit", "checks": {}}
+            "confirmed": res, "confirmed_in": "scratch worktree of /repo at " + sh("git rev-parse --short HEAD", wt)[1].strip(), "checks": {}}
     # run our checks against /repo with the patch applied (a hand-rebased patch.rebased.diff, if present,
     # is used when fix: commits in /repo made the original patch inapplicable)
     rc, out = sh("git status --porcelain", "/repo")
